@@ -156,6 +156,93 @@ def clauses(P, kind, bound, case, items_code, items, want_len, who=None):
     return fails
 
 
+def item_key(it):
+    """content of an item, for telling positions apart (indices, vertices, texcoords)"""
+    import numpy
+
+    def arr(a):
+        return None if a is None else (tuple(numpy.asarray(a).shape), numpy.asarray(a).tolist())
+    return repr((arr(it.indices), arr(it.vertices), [arr(t) for t in it.texcoords]))
+
+
+def consumption_forms(P, kind, who, mk_iter):
+    """Every way of consuming an iteration must give, per iterator and independently of any other
+    iterator over the same object, exactly the items 0..len-1 in order.  mk_iter() starts a new
+    iteration (iter(P) or P.shapes())."""
+    fails = []
+    n = len(P)
+    if n > 0 and P.vertex_index is None:
+        return fails                      # the recorded finding (no views at all); reported elsewhere
+    c, ref = attempt(lambda: [item_key(P[i]) for i in range(n)])
+    if c != 0:
+        return fails                      # item access itself fails: the item clauses report it
+
+    def fail(form, detail):
+        fails.append({'clause': 'iteration', 'site': kind, 'who': who, 'what': 'consumption-' + form, 'detail': detail})
+
+    def keys(xs):
+        return [item_key(x) for x in xs]
+
+    def check(form, f, want):
+        c, got = attempt(f)
+        if c != 0:
+            fail(form, '%s raised %r' % (form, got))
+        elif got != want:
+            fail(form, '%s gave %d entries / other items than positions 0..%d in order (expected %d entries)'
+                 % (form, len(got), n - 1, len(want)))
+    check('list', lambda: keys(mk_iter()), ref)
+    check('list-again', lambda: keys(mk_iter()), ref)
+    check('zip-self', lambda: [(item_key(a), item_key(b)) for a, b in zip(mk_iter(), mk_iter())], [(r, r) for r in ref])
+    check('nested-loops', lambda: [(item_key(a), item_key(b)) for a in mk_iter() for b in mk_iter()],
+          [(a, b) for a in ref for b in ref])
+
+    def alternating():
+        a, b = iter(mk_iter()), iter(mk_iter())
+        out_a, out_b = [], []
+        done_a = done_b = False
+        while not (done_a and done_b):
+            if not done_a:
+                try:
+                    out_a.append(item_key(next(a)))
+                except StopIteration:
+                    done_a = True
+            if not done_b:
+                try:
+                    out_b.append(item_key(next(b)))
+                except StopIteration:
+                    done_b = True
+            if len(out_a) > n + 2 or len(out_b) > n + 2:
+                break
+        return [out_a, out_b]
+    check('two-iterators-alternating', alternating, [ref, ref])
+
+    def restarted():
+        a = iter(mk_iter())
+        head = [item_key(next(a)) for _ in range((n + 1) // 2)]
+        middle = keys(mk_iter())                       # a full iteration started mid-way
+        tail = keys(a)
+        return [head + tail, middle]
+    check('partial-then-restart', restarted, [ref, ref])
+    check('enumerate', lambda: [(i, item_key(x)) for i, x in enumerate(mk_iter())], list(enumerate(ref)))
+
+    def indexing_inside():
+        out = []
+        for j, x in enumerate(mk_iter()):
+            out.append(item_key(x))
+            if n:
+                P[(j + 1) % n]
+                P[0]
+                len(P)
+            if len(out) > n + 2:
+                break
+        return out
+    check('indexing-while-iterating', indexing_inside, ref)
+    c, rv = attempt(lambda: keys(reversed(P)))
+    if c == 0 and rv != ref[::-1]:         # reversibility itself is not demanded, only its result
+        fail('reversed', 'reversed() gave %d entries / not the items len-1..0' % len(rv))
+    return fails
+
+
 def run_case(case):
     import numpy
     kind = case['kind']
@@ -206,6 +293,10 @@ def run_case(case):
         c, v = attempt(how or ((lambda: list(P.shapes())) if bound else (lambda: list(P))))
         return clauses(P, kind, bound, case, c, v, want_len, who=who)
     fails += recheck(p, False, 'unbound-second-iteration')
+    # every way of consuming an iteration, on the unbound and the bound primitive
+    fails += consumption_forms(p, kind, 'unbound', lambda: iter(p))
+    fails += consumption_forms(b, kind, 'bound-shapes', lambda: b.shapes())
+    fails += consumption_forms(b, kind, 'bound-legacy', lambda: iter(b))
     meth = {'tri': 'triangles', 'line': 'lines', 'polylist': 'polygons', 'polygons': 'polygons'}[kind]
     fails += recheck(b, True, 'bound-' + meth, how=lambda: list(getattr(b, meth)()))
     # a geometry holding two primitives: BoundGeometry.primitives() binds each one, in order
